@@ -16,3 +16,4 @@ PROP = dict(
              flags='-DC12_TSAN -DC12_BIN=\\"C12_transactional_tsan\\"', thorough=dict(scale=8, seeds=4)),
           rc('C12_transactional', 'harness/C12_transactional.cpp', None, hang_s=900, thorough=dict(scale=8, seeds=4))],
 )
+PROP['rule'] += ' Round-4 extension (error paths, one thread): consume() while the calling thread allocations of >= 1 / 4096 / 32768 / 65536 bytes fail (operator new replaced, thread-local switch) - every pushed element is delivered exactly once by this or a later consume(); update() whose payload assignment throws (rule-of-three payload) - the value stays queued and a later update() installs it.'
